@@ -3,7 +3,7 @@
 
    A Chunk is {buf []byte; rpos int; Limit int}.  The model keeps the WHOLE backing array:
      mem   = the array behind buf (|mem| = cap(buf)),   buf = take blen mem,
-     isnil = (buf == nil)   (Read on a never-written Chunk behaves differently),
+     isnil = (buf == nil)   (make([]byte, n, 64) on the first growth; Read resets only a non-nil buffer),
    so that the bytes a reslice or a slide exposes are determined (stale contents of mem, zeros
    after an allocation).  Every Go index / slice expression goes through a bound check
    (set_len, slice, idx, put): a Go run-time panic is Panic.  The capacity the allocator
@@ -12,7 +12,8 @@
 
    The model follows the REPAIRED code (fix: commits in /repo, see notes/C11.md):
      - WriteBytes reserves header+payload with ONE checkWriteSize,
-     - the slide branch of grow clamps the extension to the Limit. *)
+     - the slide branch of grow clamps the extension to the Limit,
+     - Read on an empty Chunk is io.EOF also when the buffer was never written. *)
 From XMT Require Import Base.Prelude Model.Codec.
 
 (* error codes: EOF, ErrUnexpectedEOF, ErrInvalidType, ErrTooLarge, ErrLimit, ErrShortWrite come
@@ -166,8 +167,9 @@ Definition write_pos (s : state) (w p v : Z) : res (state * Z) :=
 
 (* ---- reads (chunk_base.go, chunk_reader.go) ------------------------------------------- *)
 Definition read (s : state) (n : Z) : res (state * (list Z * Z)) :=
-  if empty s && negb (isnil s) then
-    do s1 <- set_len (with_rpos s 0) 0;
+  if empty s then
+    (* repaired: EOF also when the buffer was never written; Reset only when buf != nil *)
+    do s1 <- (if isnil s then Ok s else set_len (with_rpos s 0) 0);
     if n =? 0 then Ok (s1, ([], 0)) else Ok (s1, ([], EOF))
   else
     do src <- slice (buf s) (rpos s) (blen s);
@@ -414,7 +416,8 @@ Definition qstep (lim : Z) (p q : list Z) (o : op) (r : ret) (p' q' : list Z) : 
       if e =? 0 then pos + w <= len (p ++ q) /\ len p' = len p /\ p' ++ q' = overwrite (p ++ q) pos (be_bytes w v)
       else p' = p /\ q' = q /\ (e = EOF \/ e = ErrLimit)
   | ORead n, RData d e =>
-      d = take n q /\ q' = drop n q /\ suffix_of p' (p ++ d) /\ (e = 0 \/ (e = EOF /\ q = [] /\ n <> 0))
+      d = take n q /\ q' = drop n q /\ suffix_of p' (p ++ d) /\
+      ((e = EOF /\ q = [] /\ n <> 0) \/ (e = 0 /\ (q <> [] \/ n = 0)))
   | OReadFixed w, RVal v e =>
       (e = 0 /\ rd_uN w q = Ok (v, q') /\ p' = p ++ take w q) \/
       (e = EOF /\ rd_uN w q = Err EOF /\ v = 0 /\ q' = q /\ p' = p)
